@@ -103,7 +103,8 @@ SPEC = dict(
     ctx={},
     extracts={
         # the reference count that elects who completes the consumer of one next(): inner completion vs stop callback
-        'refcount_init': dict(file=H, kind='expr', sig=r'std::atomic_char refCount_\s*(=?[^;]*);', within=OPBASE),
+        'refcount_init': dict(file=H, kind='expr', sig=r'std::atomic_char refCount_\s*(\{[^}]*\}|=[^;]*|);', within=OPBASE,
+                              ctx=dict(post=[(r'(?s)^(.*)$', lambda m: ('= ' + m.group(1)) if m.group(1).startswith('{') else m.group(1))])),
         'complete': X(r'bool complete\(\) noexcept', OPBASE, base_ctx),
         'nr_set_value': X(r'void set_value\(Values&&\.\.\. values\) noexcept override', NRCV, nrcv_ctx('CH_VALUE', 'values')),
         'nr_set_done': X(r'void set_done\(\) noexcept override', NRCV, nrcv_ctx('CH_DONE', 'PAY_NONE')),
